@@ -202,6 +202,8 @@ def main(argv=None):
         traceback.print_exc()
         return 3
     timeout_ms = 20000 if tier == "quick" else 120000
+    if tier == "thorough":
+        os.environ["PYVC_CROSSCHECK"] = "1"  # inherited by the pool workers
     units = [] if a.only_rt else units_for(db, prop)
     results = []
     if units:
@@ -244,6 +246,11 @@ def main(argv=None):
             n_obl += 1
             solver_time += o["time"]
             per_solver[o["solver"]] = per_solver.get(o["solver"], 0) + 1
+            for tool, verdict in (o.get("cross") or {}).items():
+                kx = "%s cross-check: %s" % (tool, verdict)
+                per_solver[kx] = per_solver.get(kx, 0) + 1
+                if verdict == "sat":
+                    crashed.append({"unit": ["cross-check", o["id"], {}], "error": "SOLVER DISAGREEMENT: z3-5.1 discharged %s but %s answers sat" % (o["id"], tool)})
             if o["status"] == "unsat":
                 n_dis += 1
                 if len(obl_samples) < 12 and o["solver"] != "simplify":
